@@ -94,6 +94,15 @@ def atoms():
             'len(p.g.ps) > x', 'count(p.g.ps) == 1',
             'p.a2 > x', 'p.a2 == p.b', 'p.label == y', 'p.label.startswith(y)', 'p.has_b', 'not p.has_b', 'p.bigger(x)', 'not p.bigger(x)', 'p.bigger(p.b)', 'p.between_ab(x)',
             'not p.between_ab(x)', 'p.gname() == y', 'p.bigger(x) or p.has_b', 'p.g.size > x', 'p.a2 // 3 == x',
+            # strip family, between / concat / str / power, memberships over columns, tuple comparisons, tuple parameters
+            'p.s.strip() == y', "p.s.lstrip('a') == y", "p.s.rstrip(y) == 'a'", 'p.u.strip() == y', 'p.s.strip(p.u) == y', "p.s.rstrip() == p.s.lstrip()",
+            'p.s.lower() == y', 'p.s.upper() == p.s.lower()',
+            'between(p.a, 0, x)', 'between(p.b, p.a, x)', 'between(x, p.a, p.b)', "between(p.s, 'a', y)",
+            "concat(p.s, y) == 'ab'", 'concat(p.s, p.a) == y', "concat(y, p.s, 'a') == p.u", 'str(p.a) == y', 'str(p.a) + p.s == y',
+            'p.a ** 2 == x', 'p.b ** 2 > p.a', 'p.a ** 3 < x',
+            'x in (p.a, p.b)', 'p.a in (p.b, 1)', 'p.a not in (p.b, x)', "y in (p.s, p.u)", "p.s not in (p.u, 'a')",
+            '(p.a, p.b) == (x, 1)', '(p.a, p.s) != (x, y)', '(p.a, p.b) in ((1, 2), (x, 3))', '(p.a, p.b) == z', '(p.a, p.b) != z',
+            'p.a in z', 'p.b not in z', 'p.b in z',
             ]
     return out
 
@@ -112,7 +121,7 @@ def g_atoms():
             'exists(t for t in T if g in t.gs and t.w == x)', 'len(g.tags) > len(g.ps)', 'min(t.w for t in g.tags) < x', 'g.n in g.tags.w']
 
 
-SCOPE = {'x': INT(1), 'y': STR('a')}
+SCOPE = {'x': INT(1), 'y': STR('a'), 'z': ('tuple', (1, 2))}
 
 
 def programs(tier, rng):
